@@ -347,6 +347,28 @@ def specials():
             return lambda: read_hyperv(b)
         return run
 
+    def hyperv_parent_cycle(mode):
+        def run(work):
+            nodes = [{"id": 1, "parent": 0, "tbl": 1, "key": "a", "type": enc_hyperv.T_NODE, "value": 1},
+                     {"id": 2, "parent": 1, "tbl": 1, "key": "b", "type": enc_hyperv.T_NODE, "value": 2},
+                     {"id": 3, "parent": 2, "tbl": 1, "key": "c", "type": enc_hyperv.T_NODE, "value": 3},
+                     {"id": 4, "parent": 3, "tbl": 1, "key": "leaf", "type": enc_hyperv.T_INT, "value": 4}]
+            tables, fobjs, lay = enc_hyperv.plan_tables(nodes)
+            ents = tables[0]["entries"]
+            offs, cur = [], 10
+            for e in ents:
+                offs.append(cur)
+                cur += len(e)
+            # parent references (table index, entry offset) rewritten into a cycle: a -> a, a <-> b, a -> c -> b -> a
+            target = {"self": {0: 0}, "mutual": {0: 1}, "three": {0: 2}}[mode]
+            for k, to in target.items():
+                ents[k] = ents[k][:6] + struct.pack("<HI", 1, offs[to]) + ents[k][12:]
+            b = enc_hyperv.build(tables, fobjs)
+            return lambda: read_hyperv(b)
+        return run
+
+    for mode in ("self", "mutual", "three"):
+        out.append(("hyperv", f"entry-parent-cycle-{mode}", hyperv_parent_cycle(mode), 24, 8))
     out.append(("hyperv", "object-table-lists-itself", hyperv_selfref("self"), 24, 4))
     out.append(("hyperv", "object-table-lists-itself-3x", hyperv_selfref("multi"), 24, 4))
     out.append(("hyperv", "object-tables-list-each-other", hyperv_selfref("mutual"), 300, 4))
